@@ -307,6 +307,20 @@ def gen_calls(rng, g, nthreads):
     return calls
 
 
+def must_touch_working_set(g, calls):
+    """Does this run NECESSARILY enter a hook generator that consults the working set?  True when some call's root is an
+    attrs class / dataclass itself (`ref`): its dict hook is generated on first use, by `make_dict_(un)structure_fn`,
+    whatever the payload.  (A `list[K]` / `dict[str, K]` root with an empty payload, or a TypedDict / NamedTuple root
+    whose attrs/dataclass members sit behind late-binding Optional / collection hooks, may generate no class hook at
+    all: an empty working-set log is then what the code legitimately produces.)"""
+    for mine in calls:
+        for call in mine:
+            kind, j = call["root"]
+            if kind == "ref" and g["classes"][j]["kind"] in ("attrs", "dc"):
+                return True
+    return False
+
+
 def do_call(w, call):
     if call["op"] == "u":
         return w.conv.unstructure(realise(w, call["value"]), w.ty(call["root"]))
@@ -935,7 +949,7 @@ def run(chk: framework.Check):
         w.close()
         if bad:
             corr_fail.append(("corr:C19:WSLOG (sequential run) " + bad, case_of(g, calls, sched.PreemptPolicy(range(nthreads), {}))))
-        if not log:
+        if not log and must_touch_working_set(g, calls):
             empty_logs += 1
         bad = gensched_check(drv, chk, w, w.glog, {1000: 0})
         if bad:
@@ -998,7 +1012,7 @@ def run(chk: framework.Check):
             bad = wslog_check(drv, w, log)
             if bad:
                 corr_fail.append(("corr:C19:WSLOG " + bad, case))
-            if not log:
+            if not log and must_touch_working_set(g, calls):
                 empty_logs += 1
             tg = time.time()
             bad = gensched_check(drv, chk, w, w.glog, {i: i for i in range(nthreads)}, resubmit=(pi == 0))
